@@ -187,6 +187,7 @@ def table_diagnostics():
     names = [("c05_anchors_exact", "failing_exact_anchors", "an exactly defined anchor unit does not have its defined value"),
              ("c05_anchors_offsets", "failing_offset_anchors", "a temperature offset differs from its defined value"),
              ("c05_anchors_seven_digit", "failing_seven_digit_anchors", "a unit deviates from its defined value by more than 5e-7"),
+             ("c05_reference_values", "failing_reference_values", "a primitive unit differs from its frozen reference value (Spec/RefAnchors.v)"),
              ("c05_anchors_turn", "failing_turn_anchors", "an angle / solid-angle unit is not the fraction of a turn its name says (5e-7)"),
              ("c05_prefix_table", "failing_prefixes", "a prefix! arm is not the power of ten / of 1024 its name denotes"),
              ("c05_coherent_unit_exists", "quantities_without_coherent_unit", "a quantity has no unit with coefficient exactly 1 and no offset"),
